@@ -179,6 +179,14 @@ class Impl:
         reset_psutil_state(ps)
         self.plat.BOOT_TIME = BOOT
         extra = {}
+        if case.get("iter") is not None:
+            # an earlier, fully consumed process_iter() on another table: fills psutil._pmap with
+            # Process objects of whoever owned the PIDs THEN (and caches _LOWEST_PID)
+            self.set_table(case["iter"])
+            try:
+                extra["iterated"] = sorted(q.pid for q in ps.process_iter())
+            except Exception as e:
+                extra["iterated"] = type(e).__name__
         self.set_table(case["mk"])
         try:
             p = ps.Process(case["pid"])
@@ -245,7 +253,8 @@ class Impl:
                 ret = p.children(recursive=(call == "children_rec"))
                 signal.setitimer(signal.ITIMER_REAL, 0)
                 self.counter[1] = None
-                obs = {"kind": "ok", "pids": sorted(c.pid for c in ret)}
+                # every returned object as [pid, its create_time in ticks]: it must be the incarnation listed NOW
+                obs = {"kind": "ok", "procs": sorted([c.pid, self.to_ticks(c.create_time())] for c in ret)}
                 older = []
                 for c in ret:
                     try:
@@ -402,18 +411,53 @@ def min_pid(rows):
     return min(r[0] for r in rows) if rows else None
 
 
-def mk_case(call, pid, t0, mk=None, mid=None, t1=None, pids_call=None, family="", events=None):
-    mk = t0 if mk is None else mk
+def calc_lowest(case):
+    """what psutil._LOWEST_PID holds when the call starts: the last successful psutil.pids() wins
+    (process_iter() calls it; on an empty listing pids() raises before storing anything)"""
     lowest = None
-    if pids_call == "mk":
-        lowest = min_pid(mk)
-    elif pids_call == "t0":
-        lowest = min_pid(t0)
-    c = {"op": "tree", "call": call, "pid": pid, "mk": mk, "mid": mid, "lowest": lowest, "t0": t0, "t1": t1,
+    if case.get("iter"):
+        lowest = min_pid(case["iter"])
+    if case.get("pids_call") == "mk" and case["mk"]:
+        lowest = min_pid(case["mk"])
+    elif case.get("pids_call") == "t0" and case["t0"]:
+        lowest = min_pid(case["t0"])
+    return lowest
+
+
+def mk_case(call, pid, t0, mk=None, mid=None, t1=None, pids_call=None, family="", events=None, it=None):
+    mk = t0 if mk is None else mk
+    c = {"op": "tree", "call": call, "pid": pid, "mk": mk, "mid": mid, "lowest": None, "t0": t0, "t1": t1,
          "pids_call": pids_call, "family": family}
     if events:
         c["events"] = events
+    if it is not None:
+        c["iter"] = it
+    c["lowest"] = calc_lowest(c)
     return c
+
+
+def older_table(rng, rows, keep):
+    """the table as it was when process_iter() ran: same PIDs mostly, but other owners — other
+    start times (older and younger), other parents, some PIDs not there yet, some extra ones.
+    Rows of PIDs in `keep` are left alone."""
+    pids = [r[0] for r in rows]
+    hi = max([r[2] for r in rows] + [1])
+    out = []
+    for r in rows:
+        if r[0] in keep:
+            out.append(list(r))
+            continue
+        x = rng.random()
+        if x < 0.15:
+            continue                                             # not running yet
+        if x < 0.75:
+            st = rng.choice([0, max(0, r[2] - 1), r[2] + 1, hi + 2, rng.randrange(0, hi + 3)])
+            out.append([r[0], rng.choice(pids + [0, r[1]]), st])  # previous owner of the PID
+        else:
+            out.append(list(r))
+    if rng.random() < 0.3:
+        out.append([rng.choice([60, 61, 62]), rng.choice(pids + [0]), rng.randrange(0, hi + 2)])
+    return out
 
 
 def history_variants(rng, rows, pid, family):
@@ -457,6 +501,13 @@ def history_variants(rng, rows, pid, family):
             else:
                 evs.append([k, x[0], [x[0], x[1], max(0, x[2] + rng.choice([-3, -1, 1, 2]))]])
         out.append((rows, None, rows, ("events", evs), pc, "vanish_during"))
+    elif family == "iter_then_recycle":
+        # process_iter() has cached the previous owners of the PIDs; the object is built afterwards
+        out.append((rows, None, rows, None, pc, "iter_then_recycle", older_table(rng, rows, set())))
+        # … or before the table changes (its own row stays), possibly with is_running() in between
+        old = older_table(rng, rows, {pid})
+        out.append((old, None, rows, None, pc, "iter_object_then_recycle", old))
+        out.append((rows, None, rows, None, pc, "iter_same_table", [list(x) for x in rows]))
     elif family == "stale_lowest":
         low = min(r0[0] for r0 in rows)
         mk = rows + [[0 if low > 0 else 61, 0, 0]] if low > 0 else rows
@@ -473,7 +524,7 @@ def history_variants(rng, rows, pid, family):
 
 TABLE_FAMILIES = ["forest", "cycle", "selfloop", "unlisted", "random", "large", "cycle", "random"]
 HIST_FAMILIES = ["plain", "vanish_during", "vanish", "recycled_caller", "gone_caller", "gone_then_recycled",
-                 "stale_lowest", "plain", "vanish", "vanish_during"]
+                 "stale_lowest", "iter_then_recycle", "vanish", "iter_then_recycle"]
 
 
 def table_features(case):
@@ -505,6 +556,11 @@ def table_features(case):
         f.add("vanish")
     if case.get("events"):
         f.add("vanish_during_walk")
+    if case.get("iter") is not None:
+        f.add("process_iter_before")
+        now = {r[0]: r[2] for r in rows}
+        if any(r[0] in now and now[r[0]] != r[2] for r in case["iter"]):
+            f.add("pmap_holds_previous_owner")
     if case["mk"] != case["t0"] or case.get("mid") is not None:
         f.add("history")
     if len(rows) > 12:
@@ -677,9 +733,10 @@ def correspond(ctx, res):
     impl = Impl(ctx)
     try:
         res.rule = ("process tables from 6 table families (forest, cycle, self-loop, unlisted parents, random, large) × "
-                    "9 history families (plain, table switched right after ppid_map(), kernel events scheduled at "
+                    "12 history families (plain, table switched right after ppid_map(), kernel events scheduled at "
                     "individual look-ups during the walk, recycled caller, gone caller, gone-then-"
-                    "recycled, reuse seen by is_running, stale _LOWEST_PID) × the four calls, PRNG from VERIF_SEED; plus "
+                    "recycled, reuse seen by is_running, stale _LOWEST_PID, a fully consumed process_iter() on an "
+                    "earlier table whose PIDs are then recycled — object built before or after) × the four calls, PRNG from VERIF_SEED; plus "
                     "an exhaustive sweep of small tables and of short comm strings; non-trivial = the table has a cycle, "
                     "self-loop, tie, younger parent, unlisted parent, a history or a vanishing process, or the caller has "
                     "children; distinct = distinct (tables, caller, call)")
@@ -700,6 +757,14 @@ def correspond(ctx, res):
             cases.append(mk_case(call, 10, doc, t1=[r for r in doc if r[0] != 12], family="corpus:docstring-X-vanishes"))
             cases.append(mk_case(call, 5, [[1, 0, 1], [5, 1, 15], [6, 5, 20]], mk=[[1, 0, 1], [5, 1, 10], [6, 5, 20]],
                                  mid=[[1, 0, 1], [6, 5, 20]], family="corpus:gone-then-recycled"))
+        # process_iter() saw other owners of PIDs 20/30 (one older, one younger than the caller) before
+        # the caller forked its workers into those PIDs
+        seen_by_iter = [[1, 0, 1], [10, 1, 100], [20, 1, 50], [30, 1, 150]]
+        now = [[1, 0, 1], [10, 1, 100], [20, 10, 200], [30, 10, 210], [40, 20, 220]]
+        for call in CALLS:
+            cases.append(mk_case(call, 10, now, it=seen_by_iter, family="corpus:iter-then-recycled-children"))
+            cases.append(mk_case(call, 40, now, it=[[1, 0, 1], [10, 1, 100], [20, 1, 300], [40, 20, 220]],
+                                 family="corpus:iter-then-recycled-parent"))
         tags += [c["family"] for c in cases]
         # ---- random
         n_tables = ctx.n(640, 8000)
@@ -708,7 +773,9 @@ def correspond(ctx, res):
             hf = HIST_FAMILIES[(i // len(TABLE_FAMILIES) + i) % len(HIST_FAMILIES)]
             rows = gen_table(ctx.rng, tf)
             for pid in pick_callers(ctx.rng, rows, 1 if tf == "large" else 2):
-                for (mk, mid, t0, t1, pc, tag) in history_variants(ctx.rng, rows, pid, hf):
+                for hv in history_variants(ctx.rng, rows, pid, hf):
+                    (mk, mid, t0, t1, pc, tag) = hv[:6]
+                    it = hv[6] if len(hv) > 6 else None
                     for call in CALLS:
                         if t1 is not None and call in ("parent", "parents"):
                             continue
@@ -718,7 +785,7 @@ def correspond(ctx, res):
                         else:
                             t1_ = t1
                         cases.append(mk_case(call, pid, t0, mk=mk, mid=mid, t1=t1_, pids_call=pc,
-                                             family=tf + "/" + tag, events=evs))
+                                             family=tf + "/" + tag, events=evs, it=it))
                         tags.append(tf + "/" + tag)
         n_rand = len(cases)
         # ---- exhaustive small tables
@@ -734,6 +801,16 @@ def correspond(ctx, res):
                         cases.append(mk_case(call, pid, rows, family="exhaustive"))
                         tags.append("exhaustive")
             ex_desc.append("%d tables of %d processes" % (cnt, k))
+        # ---- exhaustive: every 2-process table seen by process_iter() × every 2-process table seen by the call
+        cnt = 0
+        for old in exhaustive_tables(2, [2, 3]):
+            for rows in exhaustive_tables(2, [2, 3]):
+                cnt += 1
+                for pid in (2, 3):
+                    for call in CALLS:
+                        cases.append(mk_case(call, pid, rows, it=old, family="exhaustive-iter"))
+                        tags.append("exhaustive-iter")
+        ex_desc.append("%d pairs (table cached by process_iter(), table seen by the call) of 2 processes" % cnt)
         # ---- run
         CH = 3000
         workers = 1 if ctx.tier == "quick" else max(1, min(8, (os.cpu_count() or 2) // 2))
@@ -753,7 +830,7 @@ def correspond(ctx, res):
                 for f in feats:
                     res.count("feature:" + f)
                 res.count("table_size:%s" % ("1-3" if len(c["t0"]) <= 3 else "4-8" if len(c["t0"]) <= 8 else "9-40"))
-                res.case((c["call"], c["pid"], c["mk"], c["mid"], c["t0"], c["t1"], c["lowest"], c.get("events")), nontrivial=bool(feats),
+                res.case((c["call"], c["pid"], c["mk"], c["mid"], c["t0"], c["t1"], c["lowest"], c.get("events"), c.get("iter")), nontrivial=bool(feats),
                          sample={"family": fam, "case": strip(c)} if (a + j) in (0, 1, 30, 41, 77) else None)
         # ---- stat lines
         slines = stat_cases(ctx.rng, ctx.n(300, 20000))
@@ -814,13 +891,12 @@ def _drop(case, pids):
     c = dict(case)
     for k in ("mk", "mid", "t0", "t1"):
         c[k] = f(case[k])
+    if case.get("iter") is not None:
+        c["iter"] = [r for r in case["iter"] if r[0] not in pids]
     if case.get("events"):
         c["events"] = [e for e in case["events"] if e[1] not in pids or e[1] == case["pid"]]
         c["t1"] = None
-    if c.get("pids_call") == "mk":
-        c["lowest"] = min_pid(c["mk"])
-    elif c.get("pids_call") == "t0":
-        c["lowest"] = min_pid(c["t0"])
+    c["lowest"] = calc_lowest(c)
     return c
 
 
@@ -830,7 +906,7 @@ def shrink(ctx, d):
         return d
     impl = Impl(ctx)
     try:
-        allp = sorted({r[0] for k in ("mk", "mid", "t0", "t1") if case.get(k) for r in case[k]} - {case["pid"]})
+        allp = sorted({r[0] for k in ("mk", "mid", "t0", "t1", "iter") if case.get(k) for r in case[k]} - {case["pid"]})
         if not _fails(ctx, impl, case):
             return d
         keep = ddmin(allp, lambda ks: _fails(ctx, impl, _drop(case, set(allp) - set(ks))), max_tests=40) if len(allp) >= 2 else allp
